@@ -5,6 +5,7 @@ package main
 
 import (
 	"fmt"
+	"hash/fnv"
 	"go/constant"
 	"go/types"
 	"strings"
@@ -681,12 +682,21 @@ func reportDTX(c *Ctx, r *RuleResult, spec DTXSpec, res *DTXResult, keyPrefix st
 		}
 	}
 	for k, g := range groups {
+		if len(k) > 160 {
+			h := fnv.New32a()
+			h.Write([]byte(k))
+			k = k[:120] + fmt.Sprintf("…#%08x", h.Sum32())
+		}
 		m := g.m
 		msg := fmt.Sprintf("decision table %s: for %s", spec.Name, valuationString(m.Valuation))
 		if m.Order != "ZERO" {
 			msg += " [order of instants: " + m.Order + "]"
 		}
-		msg += fmt.Sprintf(" the code yields %q but the property requires %s (%d valuation(s) in this group; deciding branch at %s)", m.Observed, strings.Join(m.Expected, " or "), g.n, m.Leaf.Branch)
+		obsS, expS := m.Observed, strings.Join(m.Expected, " or ")
+		if len(obsS) > 300 || len(expS) > 300 {
+			obsS, expS = diffStrings(obsS, expS)
+		}
+		msg += fmt.Sprintf(" the code yields %q but the property requires %s (%d valuation(s) in this group; deciding branch at %s)", obsS, expS, g.n, m.Leaf.Branch)
 		r.Violation(keyPrefix+"|"+k, m.Leaf.Branch, msg, map[string]interface{}{"valuation": m.Valuation, "order": m.Order, "effects": effectStrings(m.Leaf.Trace)})
 	}
 }
@@ -728,4 +738,27 @@ func describeVal(in *Interp, v Val) string {
 		return "non-nil"
 	}
 	return keyOf(v)
+}
+
+// diffStrings shortens two long renderings to the region where they differ.
+func diffStrings(a, b string) (string, string) {
+	i := 0
+	for i < len(a) && i < len(b) && a[i] == b[i] {
+		i++
+	}
+	start := i - 60
+	if start < 0 {
+		start = 0
+	}
+	cut := func(s string) string {
+		end := i + 120
+		if end > len(s) {
+			end = len(s)
+		}
+		if start >= len(s) {
+			return "…(ends)"
+		}
+		return "…" + s[start:end] + "…"
+	}
+	return cut(a), cut(b)
 }
